@@ -220,3 +220,174 @@ Theorem cycle_rule_sound frs : acyclic frs -> cycle_rule frs = Some [].
 Proof.
   intros [rank Hr]. unfold cycle_rule. rewrite (cyc_all_ok rank frs Hr frs []); [reflexivity|apply incl_refl].
 Qed.
+
+(* ------------------------------------------------------------------ completeness of the cycle rule *)
+(* every fragment already checked has all its (defined) spread targets checked BEFORE it: the list
+   is built by consing, so "before" is "further down the list" *)
+Fixpoint closed (frs : list fragment) (checked : list string) : Prop :=
+  match checked with
+  | [] => True
+  | c :: rest =>
+      (forall f n g, find_fragment frs c = Some f -> In n (spreads_of (fr_sels f)) ->
+                     find_fragment frs n = Some g -> In (fr_name g) rest) /\ closed frs rest
+  end.
+
+Definition suffix_of (a b : list string) : Prop := exists pre, b = pre ++ a.
+Lemma suffix_refl a : suffix_of a a. Proof. now exists []. Qed.
+Lemma suffix_trans a b c : suffix_of a b -> suffix_of b c -> suffix_of a c.
+Proof. intros [p ->] [q ->]. exists (q ++ p). now rewrite app_assoc. Qed.
+Lemma suffix_in a b x : suffix_of a b -> In x a -> In x b.
+Proof. intros [p ->] H. apply in_or_app. now right. Qed.
+
+Lemma find_fragment_self frs fr :
+  NoDup (map fr_name frs) -> In fr frs -> find_fragment frs (fr_name fr) = Some fr.
+Proof.
+  induction frs as [|f frs IH]; intros Hn Hi; [destruct Hi|]. cbn [find_fragment].
+  inversion Hn as [|? ? Hx Hn']; subst. destruct Hi as [->|Hi].
+  - now rewrite String.eqb_refl.
+  - destruct (String.eqb (fr_name fr) (fr_name f)) eqn:E.
+    + apply String.eqb_eq in E. exfalso. apply Hx. rewrite <- E. now apply in_map.
+    + now apply IH.
+Qed.
+
+Section CycComplete.
+Variable frs : list fragment.
+Hypothesis Hnd : NoDup (map fr_name frs).
+
+Definition rec_ok (rec : fragment -> list string -> option (list string + unit)) : Prop :=
+  forall f c c', In f frs -> closed frs c -> rec f c = Some (inl c') ->
+                 closed frs c' /\ In (fr_name f) c' /\ suffix_of c c'.
+
+Lemma cyc_each_closed rec path' self names : rec_ok rec -> forall checked checked',
+  closed frs checked ->
+  cyc_each rec frs path' self names checked = Some (inl checked') ->
+  exists c_final, checked' = self :: c_final /\ closed frs c_final /\ suffix_of checked c_final /\
+                  (forall n g, In n names -> find_fragment frs n = Some g -> In (fr_name g) c_final).
+Proof.
+  intros Hrec. induction names as [|n r IH]; intros checked checked' Hc H; cbn [cyc_each] in H.
+  - inversion H; subst. exists checked. repeat split; [exact Hc|apply suffix_refl|intros ? ? []].
+  - destruct (mem_str n path'); [discriminate|].
+    destruct (find_fragment frs n) as [f|] eqn:Ef.
+    + destruct (rec f checked) as [[c1|]|] eqn:Er; try discriminate.
+      destruct (find_fragment_some _ _ _ Ef) as [Hf _].
+      destruct (Hrec f checked c1 Hf Hc Er) as (Hc1 & Hin1 & Hs1).
+      destruct (IH c1 checked' Hc1 H) as (cf & -> & Hcf & Hsf & Hall).
+      exists cf. repeat split; [exact Hcf|eapply suffix_trans; eauto|].
+      intros m g [<-|Hm] Hg.
+      * rewrite Ef in Hg. inversion Hg; subst. eapply suffix_in; eauto.
+      * eapply Hall; eauto.
+    + destruct (IH checked checked' Hc H) as (cf & -> & Hcf & Hsf & Hall).
+      exists cf. repeat split; try assumption.
+      intros m g [<-|Hm] Hg; [congruence|eapply Hall; eauto].
+Qed.
+
+Lemma cyc_fragment_closed : forall fuel path, rec_ok (fun f c => cyc_fragment fuel frs f path c).
+Proof.
+  induction fuel as [|fuel IH]; intros path f c c' Hf Hc H; cbn [cyc_fragment] in H; [discriminate|].
+  destruct (mem_str (fr_name f) c) eqn:Em.
+  - inversion H; subst. repeat split; [exact Hc|now apply mem_str_iff|apply suffix_refl].
+  - destruct (cyc_each_closed _ _ _ _ (IH (path ++ [fr_name f])) c c' Hc H) as (cf & -> & Hcf & Hsf & Hall).
+    split; [|split].
+    + cbn [closed]. split; [|exact Hcf].
+      intros f' n g Hself Hn Hg. rewrite (find_fragment_self frs f Hnd Hf) in Hself. inversion Hself; subst.
+      eapply Hall; eauto.
+    + now left.
+    + destruct Hsf as [p ->]. exists (fr_name f :: p). reflexivity.
+Qed.
+
+Lemma cyc_all_closed fuel : forall todo checked,
+  incl todo frs -> closed frs checked -> cyc_all fuel frs todo checked = Some false ->
+  exists checked', closed frs checked' /\ suffix_of checked checked' /\ (forall f, In f todo -> In (fr_name f) checked').
+Proof.
+  induction todo as [|fr r IH]; intros checked Hi Hc H; cbn [cyc_all] in H.
+  - exists checked. repeat split; [exact Hc|apply suffix_refl|intros ? []].
+  - destruct (cyc_fragment fuel frs fr [] checked) as [[c1|]|] eqn:E; try discriminate.
+    destruct (cyc_fragment_closed fuel [] fr checked c1 (Hi fr (or_introl eq_refl)) Hc E) as (Hc1 & Hin1 & Hs1).
+    destruct (IH c1 (fun x Hx => Hi x (or_intror Hx)) Hc1 H) as (cf & Hcf & Hsf & Hall).
+    exists cf. repeat split; [exact Hcf|eapply suffix_trans; eauto|].
+    intros f [<-|Hf]; [eapply suffix_in; eauto|now apply Hall].
+Qed.
+
+(* rank: how many names were checked before the OLDEST occurrence of n *)
+Fixpoint rk (l : list string) (n : string) : nat :=
+  match l with
+  | [] => O
+  | _ :: r => if mem_str n r then rk r n else List.length r
+  end.
+
+Lemma rk_lt rest m : In m rest -> (rk rest m < List.length rest)%nat.
+Proof.
+  induction rest as [|x r IH]; [intros []|]. intros Hi. cbn [rk List.length].
+  destruct (mem_str m r) eqn:E; [apply mem_str_iff in E; specialize (IH E); lia|lia].
+Qed.
+
+Lemma rk_skip pre rest m : In m rest -> rk (pre ++ rest) m = rk rest m.
+Proof.
+  intros Hi. induction pre as [|p pre IH]; [reflexivity|]. cbn [app rk].
+  assert (E : mem_str m (pre ++ rest) = true) by (apply mem_str_iff, in_or_app; now right).
+  now rewrite E.
+Qed.
+
+Lemma closed_at pre c rest : closed frs (pre ++ c :: rest) ->
+  forall f n g, find_fragment frs c = Some f -> In n (spreads_of (fr_sels f)) -> find_fragment frs n = Some g ->
+                In (fr_name g) rest.
+Proof. induction pre as [|p pre IH]; cbn [app closed]; intros [H1 H2]; [exact H1|now apply IH]. Qed.
+
+Lemma last_occurrence (l : list string) n : In n l -> exists pre rest, l = pre ++ n :: rest /\ ~ In n rest.
+Proof.
+  induction l as [|x l IH]; [intros []|]. intros Hi.
+  destruct (in_dec string_dec n l) as [Hl|Hl].
+  - destruct (IH Hl) as (pre & rest & -> & Hr). exists (x :: pre), rest. split; [reflexivity|exact Hr].
+  - destruct Hi as [->|Hi]; [|contradiction]. exists [], l. split; [reflexivity|exact Hl].
+Qed.
+
+Lemma rk_last pre n rest : ~ In n rest -> rk (pre ++ n :: rest) n = List.length rest.
+Proof.
+  intros Hr. induction pre as [|p pre IH]; cbn [app rk].
+  - apply mem_str_false in Hr. now rewrite Hr.
+  - assert (E : mem_str n (pre ++ n :: rest) = true) by (apply mem_str_iff, in_or_app; right; now left).
+    now rewrite E.
+Qed.
+
+(* a run of the rule that reports nothing certifies acyclicity *)
+Theorem cycle_rule_complete : cycle_rule frs = Some [] -> acyclic frs.
+Proof.
+  unfold cycle_rule. destruct (cyc_all (S (List.length frs)) frs frs []) as [[|]|] eqn:E; try discriminate. intros _.
+  destruct (cyc_all_closed _ frs [] (incl_refl _) I E) as (ck & Hck & _ & Hall).
+  exists (rk ck). intros f n g Hf Hn Hg.
+  destruct (find_fragment_some _ _ _ Hg) as [Hgin _].
+  destruct (last_occurrence ck (fr_name f) (Hall f Hf)) as (pre & rest & -> & Hr).
+  pose proof (closed_at pre (fr_name f) rest Hck f n g (find_fragment_self frs f Hnd Hf) Hn Hg) as Hin.
+  rewrite (rk_last pre (fr_name f) rest Hr).
+  replace (pre ++ fr_name f :: rest) with ((pre ++ [fr_name f]) ++ rest) by (now rewrite <- app_assoc).
+  rewrite (rk_skip _ rest _ Hin). now apply rk_lt.
+Qed.
+End CycComplete.
+
+Theorem cycle_rule_exact frs : NoDup (map fr_name frs) -> (cycle_rule frs = Some [] <-> acyclic frs).
+Proof. intros Hn. split; [now apply cycle_rule_complete|apply cycle_rule_sound]. Qed.
+
+(* ------------------------------------------------------------------ errors are never lost *)
+From RecordUpdate Require Import RecordSet.
+Definition refusing (st : vctx) : Prop := crashed st = true \/ errs st <> [].
+
+Lemma emit_keeps b r st : refusing st -> refusing (emit b r st).
+Proof.
+  unfold refusing, emit. intros H.
+  destruct (aborted st || crashed st); [exact H|].
+  destruct r as [es|]; [|left; reflexivity].
+  destruct (b && negb match es with [] => true | _ :: _ => false end); cbn;
+    (destruct H as [H|H]; [left; exact H|right; intros E; apply app_eq_nil in E; now destruct E]).
+Qed.
+
+Lemma cycle_emit_refuses frs st :
+  NoDup (map fr_name frs) -> ~ acyclic frs -> aborted st = false ->
+  refusing (emit true (cycle_rule frs) st).
+Proof.
+  intros Hn Hc Ha. unfold emit. rewrite Ha. cbn [orb].
+  destruct (crashed st) eqn:Ecr; [left; exact Ecr|].
+  destruct (cycle_rule frs) as [[|e es]|] eqn:E.
+  - exfalso. apply Hc. now apply (cycle_rule_complete frs Hn).
+  - right. cbn. intros E'. apply app_eq_nil in E'. destruct E' as [_ E']. discriminate.
+  - left. reflexivity.
+Qed.
